@@ -10,6 +10,7 @@ import struct
 import numpy as np
 from hypothesis import strategies as st
 
+from vlib import datasets as ds
 from vlib.refs import mesh_spec, vtk_grammar
 from vlib.runner import Sub
 
@@ -61,7 +62,10 @@ def layout_cases(draw):
     tds = ["uint32", "uint16"] + (["uint8"] if n <= 255 else [])
     return {"mesh": mesh, "vdtype": draw(st.sampled_from(
         ["float32", "float64"])), "tdtype": draw(st.sampled_from(tds)),
-        "gzip": draw(st.booleans())}
+        "gzip": draw(st.booleans()),
+        "layout": draw(st.one_of(st.none(), st.tuples(
+            st.sampled_from(ds.LAYOUTS), st.sampled_from(ds.LAYOUTS)).map(
+                list)))}
 
 
 def big_mesh(n, m, seed):
@@ -78,6 +82,12 @@ def check_layout(ctx, case):
     if "big" in case:
         case = dict(case, mesh=big_mesh(*case["big"]))
     v, t = arrays(case["mesh"], case["vdtype"], case["tdtype"])
+    # the arrays as other code hands them over: column-major (a GIfTI with
+    # ColumnMajorOrder, np.vstack([...]).T), big-endian, read-only, views
+    lay = case.get("layout")
+    if lay:
+        v = ds.laid_out(v, lay[0]) if len(v) else v
+        t = ds.laid_out(t, lay[1]) if len(t) else t
     bio = io.BytesIO()
     if case["gzip"]:
         with gzip.GzipFile(fileobj=bio, mode="wb") as f:
@@ -143,7 +153,9 @@ def run_layout(ctx, n):
         ctx.record(case, len(case["mesh"]["triangles"]) >= 2,
                    [case["vdtype"], case["tdtype"],
                     "gzip" if case["gzip"] else "plain",
-                    "empty" if not case["mesh"]["vertices"] else "nonempty"])
+                    "empty" if not case["mesh"]["vertices"] else "nonempty",
+                    "layout." + ("/".join(case["layout"])
+                                 if case.get("layout") else "c/c")])
     ctx.run_hypothesis(layout_cases(), check, n)
 
 
@@ -345,7 +357,13 @@ def convert_cases(draw):
             "cli": draw(st.booleans()), "gzip": draw(st.booleans()),
             "mesh_dir": draw(st.sampled_from([None, "mesh", "m2"])),
             "has_mesh_key": draw(st.booleans()),
-            "name": draw(st.sampled_from([None, "frag", "a.b"]))}
+            "name": draw(st.sampled_from([None, "frag", "a.b"])),
+            # variants of the GIfTI container that the image library reads
+            "gii": [draw(st.sampled_from(["GIFTI_ENCODING_B64GZ",
+                                          "GIFTI_ENCODING_B64BIN",
+                                          "GIFTI_ENCODING_ASCII"])),
+                    draw(st.sampled_from(["C", "C", "F"])),
+                    draw(st.sampled_from(["little", "little", "big"]))]}
 
 
 def check_convert(ctx, case):
@@ -354,13 +372,35 @@ def check_convert(ctx, case):
     d = ctx.tmpdir("mesh")
     try:
         v, t = arrays(case["mesh"], "float32", "int32")
+        genc, gorder, gendian = case.get("gii") or [
+            "GIFTI_ENCODING_B64GZ", "C", "little"]
         gi = nib.gifti.GiftiImage(darrays=[
             nib.gifti.GiftiDataArray(v, intent="NIFTI_INTENT_POINTSET",
-                                     datatype="NIFTI_TYPE_FLOAT32"),
+                                     datatype="NIFTI_TYPE_FLOAT32",
+                                     encoding=genc, ordering=gorder,
+                                     endian=gendian),
             nib.gifti.GiftiDataArray(t, intent="NIFTI_INTENT_TRIANGLE",
-                                     datatype="NIFTI_TYPE_INT32")])
+                                     datatype="NIFTI_TYPE_INT32",
+                                     encoding=genc, ordering=gorder,
+                                     endian=gendian)])
         src = os.path.join(d, "input.surf.gii")
         nib.save(gi, src)
+        # precondition: the image library gives back the arrays that were
+        # stored (otherwise the case says nothing about the converter)
+        try:
+            back = nib.load(src)
+            bv = back.get_arrays_from_intent("NIFTI_INTENT_POINTSET")[0].data
+            bt = back.get_arrays_from_intent("NIFTI_INTENT_TRIANGLE")[0].data
+            pre = bv.shape == v.shape and bt.shape == t.shape and \
+                np.array_equal(bv, v) and np.array_equal(bt, t)
+        except Exception:
+            pre = False
+        if not pre:
+            # (the image library does not round-trip every variant it can
+            # write, e.g. big-endian binary and column-major ASCII)
+            ctx.count("gifti_precondition_failed." + "/".join(
+                [genc[15:], gorder, gendian]))
+            return None
         dest = os.path.join(d, "ds")
         os.makedirs(dest)
         info = json.loads(json.dumps(SEG_INFO))
@@ -440,11 +480,16 @@ def check_convert(ctx, case):
 
 def run_convert(ctx, n):
     def check(ctx, case):
+        before = sum(v for k, v in ctx.counters.items()
+                     if k.startswith("gifti_precondition_failed"))
         check_convert(ctx, case)
-        ctx.record(case, len(case["mesh"]["triangles"]) >= 2,
+        skipped = sum(v for k, v in ctx.counters.items()
+                      if k.startswith("gifti_precondition_failed")) > before
+        ctx.record(case, len(case["mesh"]["triangles"]) >= 2 and not skipped,
                    ["cli" if case["cli"] else "api",
                     "transform" if case["affine"] else "identity",
-                    "gzip" if case["gzip"] else "plain"])
+                    "gzip" if case["gzip"] else "plain",
+                    "gii." + "/".join(case.get("gii") or ["default"])])
     ctx.run_hypothesis(convert_cases(), check, n)
 
 
